@@ -136,7 +136,22 @@ type RunResult struct {
 // watchdog goroutine) when a guarded run is still going after 8 x its guard.
 var onBlowup func(c *Ctx, sc Scenario, st *simrt.Stream, idx int, wall time.Duration)
 
+// runawayCPU: no run of any scenario needs anywhere near this much CPU time
+// (the slowest of millions took seconds); a run that does is stuck in a loop
+// that never reaches a scheduling point.
+const runawayCPU = 120 * time.Second
+
+func blowupKey(c *Ctx) string {
+	if c.WallGuard > 0 {
+		return "input-blowup"
+	}
+	return "run-does-not-terminate"
+}
+
 func blowupMessage(c *Ctx, cpu time.Duration) string {
+	if c.WallGuard == 0 {
+		return fmt.Sprintf("the run was still going after %.0f s of CPU time: some task loops without ever reaching a scheduling point (no simulated run needs more than a few seconds)", cpu.Seconds())
+	}
 	return fmt.Sprintf("the run was still going after %.0f s of CPU time (guard %v) once this input was sent: %s", cpu.Seconds(), c.WallGuard, c.WallNote)
 }
 
@@ -173,8 +188,9 @@ func runOne(t *testing.T, prop, tier string, sc Scenario, st *simrt.Stream, log 
 			case <-stopWatch:
 				return
 			case <-tick.C:
-				if g := c.WallGuard; g > 0 && onBlowup != nil && cpuTime()-cpu0 > 8*g {
-					onBlowup(c, sc, st, idx, cpuTime()-cpu0)
+				used := cpuTime() - cpu0
+				if g := c.WallGuard; onBlowup != nil && ((g > 0 && used > 8*g) || used > runawayCPU) {
+					onBlowup(c, sc, st, idx, used)
 					return
 				}
 			}
@@ -318,6 +334,10 @@ type ReplayFile struct {
 	Trace      []simrt.Decision `json:"decision_trace"`
 	Events     []string         `json:"events"`
 	Repo       string           `json:"repo_state"`
+	// FromSeed: no decision list (the process died during the run, e.g. a
+	// stack overflow in the code under test); the run is re-created from
+	// (seed, run_index), which is just as deterministic
+	FromSeed bool `json:"from_seed,omitempty"`
 }
 
 func mix(seed uint64, k int) uint64 {
@@ -407,6 +427,10 @@ func searchMain(t *testing.T, scs []Scenario) int {
 	seenKeys := map[string]bool{}
 	unknown := 0
 	exit := 0
+	var cur *os.File
+	if *fOut != "" {
+		cur, _ = os.Create(*fOut + ".current")
+	}
 	finish := func() int {
 		for h := range hashes {
 			wr.Hashes = append(wr.Hashes, h)
@@ -427,18 +451,19 @@ func searchMain(t *testing.T, scs []Scenario) int {
 		// (replaying them re-creates the same input) and end the worker
 		msg := blowupMessage(c, wall)
 		vals := st.Snapshot(300000)
-		rf := &ReplayFile{Prop: *fProp, Scenario: sc.Name, Tier: *fTier, Seed: *fSeed, RunIndex: idx, Key: "input-blowup", Message: msg,
+		key := blowupKey(c)
+		rf := &ReplayFile{Prop: *fProp, Scenario: sc.Name, Tier: *fTier, Seed: *fSeed, RunIndex: idx, Key: key, Message: msg,
 			Decisions: trimZeros(vals), Original: len(vals), NonZero: nonZero(vals), Repo: os.Getenv("VERIF_REPO_STATE")}
 		path := ""
 		if *fReplays != "" {
-			path = filepath.Join(*fReplays, fmt.Sprintf("%s-%s-%d-%d.json", *fProp, "input-blowup", *fSeed, idx))
+			path = filepath.Join(*fReplays, fmt.Sprintf("%s-%s-%d-%d.json", *fProp, key, *fSeed, idx))
 			b, _ := json.MarshalIndent(rf, "", " ")
 			os.MkdirAll(*fReplays, 0755)
 			os.WriteFile(path, b, 0644)
 		}
-		entry := map[string]interface{}{"key": "input-blowup", "message": msg, "replay": path, "run_index": idx, "scenario": sc.Name,
+		entry := map[string]interface{}{"key": key, "message": msg, "replay": path, "run_index": idx, "scenario": sc.Name,
 			"decisions": len(rf.Decisions), "nonzero": rf.NonZero, "original_decisions": rf.Original}
-		if kf := knownOpen(findings, *fProp, "input-blowup"); kf != nil {
+		if kf := knownOpen(findings, *fProp, key); kf != nil {
 			entry["finding"] = kf.What
 			wr.Known = append(wr.Known, entry)
 		} else {
@@ -458,6 +483,10 @@ func searchMain(t *testing.T, scs []Scenario) int {
 		sc := scs[k%len(scs)]
 		seed := mix(*fSeed, k)
 		st := simrt.NewSearch(seed)
+		if cur != nil {
+			// which run this process is in, should it die in it
+			cur.WriteAt([]byte(fmt.Sprintf("%-12d %-40s\n", k, sc.Name)), 0)
+		}
 		t0 := time.Now()
 		res := runOne(t, *fProp, *fTier, sc, st, false, k)
 		wall := time.Since(t0).Seconds()
@@ -730,15 +759,19 @@ func replayMain(t *testing.T, scs []Scenario) int {
 			continue
 		}
 		onBlowup = func(c *Ctx, sc Scenario, st *simrt.Stream, idx int, wall time.Duration) {
-			fmt.Printf("violation key=input-blowup: %s\n", blowupMessage(c, wall))
-			if rf.Key == "input-blowup" {
+			fmt.Printf("violation key=%s: %s\n", blowupKey(c), blowupMessage(c, wall))
+			if rf.Key == blowupKey(c) {
 				fmt.Printf("REPRODUCED property=%s key=%s\n", rf.Prop, rf.Key)
 				os.Exit(1)
 			}
 			fmt.Fprintln(os.Stderr, "INFRA: the replayed run does not terminate")
 			os.Exit(2)
 		}
-		res := runOne(t, rf.Prop, rf.Tier, sc, simrt.NewReplay(rf.Decisions), true, rf.RunIndex)
+		stream := simrt.NewReplay(rf.Decisions)
+		if rf.FromSeed {
+			stream = simrt.NewSearch(mix(rf.Seed, rf.RunIndex))
+		}
+		res := runOne(t, rf.Prop, rf.Tier, sc, stream, true, rf.RunIndex)
 		for _, e := range res.Sim.Events {
 			fmt.Println(e)
 		}
